@@ -306,6 +306,11 @@ func augmentOverlayFile(file *ast.File, overrides map[string]overrideInfo) {
 					}
 				case *ast.ValueSpec:
 					for _, name := range s.Names {
+						if name.Name == `_` {
+							// The blank identifier declares nothing, so it can't
+							// override the blank declarations of the original.
+							continue
+						}
 						overrides[name.Name] = overrideInfo{}
 					}
 				}
